@@ -51,6 +51,9 @@ class ClobberTerms(Terms):
                     mutref[s["p"][0]] = rv["place"]
             self._clobbers = {}
             for bb, t in body.calls():
+                cn = callee_name(t)
+                if self.P is not None and isinstance(cn, str) and cn in self.P.bodies and is_pure_fn(self.P, cn):
+                    continue     # a workspace function that stores through none of its parameters (peek_u8(&mut self)) changes nothing
                 for a in t["args"]:
                     pl = op_place(a)
                     if pl is None or len(pl) != 1:
@@ -740,6 +743,14 @@ class Prover:
                         return ({z: c for z, c in d.items() if c}, base[1] - b[1])
                     if kind == "to" and e is not None:
                         return self.lin(e)
+            if last == "concat" and len(y[2]) == 1:
+                arr = canon(y[2][0])
+                if arr[0] == "agg" and arr[1] == "array":
+                    tot = ({}, 0)
+                    for _, e in arr[3]:
+                        le = self.lin(("len", canon(e)))
+                        tot = _add(tot, le)
+                    return tot
             if last in ("to_be_bytes", "to_le_bytes", "to_ne_bytes", "octets"):
                 m = re.search(r"<impl (u8|u16|u32|u64|u128|i8|i16|i32|i64)>", y[1])
                 if m:
@@ -748,6 +759,20 @@ class Prover:
                     return ({}, 4)
                 if "Ipv6Addr" in y[1]:
                     return ({}, 16)
+        if y == ("param", 2) and self.body.kind == "closure" and self.body.parent in self.P.bodies:
+            # the item of `chunks_exact(k)` handed to an adaptor's closure has exactly k elements
+            par = self.P.bodies[self.body.parent]
+            PT = cterms(self.P, par)
+            for pbb, ptm in par.calls():
+                nme = callee_name(ptm) or ""
+                if nme.rsplit("::", 1)[-1] in ("map", "for_each", "filter_map", "flat_map", "all", "any") and "Iterator" in nme + (ptm["callee"].get("decl") or "") and len(ptm["args"]) == 2:
+                    pa = [canon(PT.operand(o, pbb, len(par.blocks[pbb]["stmts"]))) for o in ptm["args"]]
+                    if pa[1][0] == "agg" and pa[1][1] == "closure:" + self.body.id:
+                        src = pa[0]
+                        if src[0] == "call" and isinstance(src[1], str) and src[1].rsplit("::", 1)[-1] == "chunks_exact" and len(src[2]) == 2:
+                            k = canon(src[2][1])
+                            if k[0] == "const" and isinstance(k[1], int) and k[1] > 0:
+                                return ({}, k[1])
         if y[0] == "agg" and y[1] == "array":
             return ({}, len(y[3]))
         if y[0] == "repeat" and isinstance(y[2], int):
@@ -836,7 +861,7 @@ class Prover:
             ok = (v == 1) if out_ty.startswith("std::option::Option<") else (v == 0) if out_ty.startswith("std::result::Result<") else None
         if not ok:
             return
-        key = ("succ", y[1])
+        key = ("succ", id(self.P), y[1])
         summ = _succ_memo.get(key)
         if summ is None:
             summ = []
@@ -1252,6 +1277,12 @@ class Discharger:
             l = pr.len_summary(src)
             if m and l is not None and not l[0] and l[1] == int(m.group(1)):
                 return ("D-len", "slice of length %d into [_; %d]" % (l[1], int(m.group(1))))
+            if m and l is not None and l[0]:
+                nn = int(m.group(1))
+                r1 = pr.prove(_add(l, ({}, -nn)), s.bb)
+                r2 = pr.prove(_add(_neg(l), ({}, nn)), s.bb)
+                if r1 and r2:
+                    return ("D-len", "length proven equal to %d under the dominating guards" % nn)
             # integer conversions that cannot fail by range
             m2 = re.search(r"^(u8|u16|u32|u64|usize|i32|i64)$", dty.strip())
             if m2:
@@ -1499,14 +1530,15 @@ _PURE_STD = re.compile(r"( as std::ops::(Add|Sub|Mul|Div|Rem|Shl|Shr|BitAnd|BitO
 def is_pure_fn(P, fid, depth=0):
     """a workspace function that only reads its arguments: no `&mut` parameter, no store through a parameter, and every call it
     makes is to a pure std operator/observer or to another such function"""
-    if fid in _pure:
-        return _pure[fid]
+    key = (id(P), fid)
+    if key in _pure:
+        return _pure[key]
     b = P.bodies.get(fid)
     sig = P.sigs.get(fid) or {}
     if b is None or depth > 4 or b.kind not in ("fn", "assoc_fn"):
-        _pure[fid] = False
+        _pure[key] = False
         return False
-    _pure[fid] = False   # cycles are not pure
+    _pure[key] = False   # cycles are not pure
     ok = True
     for bb, idx, st in b.stmts():
         if "*" in st["p"][1:]:
@@ -1518,7 +1550,7 @@ def is_pure_fn(P, fid, depth=0):
     for bb, tm in b.terms():
         if tm["k"] in ("yield",):
             ok = False
-    _pure[fid] = ok
+    _pure[key] = ok
     return ok
 
 
